@@ -763,7 +763,17 @@ def _bookkeeping(c: Ctx, r: RuleResult, f: Func) -> None:
             if len(lits) != 1:
                 ok = False
                 continue
-            work.append((u, lits[0], {id(x) for x in ast.walk(guard.test)}))
+            gt = {id(x) for x in ast.walk(guard.test)}
+            # enclosing tests that look only at the token itself (`elif token.info == "auto":` around the two updates) belong to
+            # the guard as well; a test that mentions anything else (the counter, another variable) does not
+            anc = f.module.parents.get(guard)
+            while anc is not None and anc is not loop:
+                if isinstance(anc, ast.If) and any(x is u for b_ in anc.body for x in ast.walk(b_)):
+                    names_ = {x.id for x in ast.walk(anc.test) if isinstance(x, ast.Name)}
+                    if names_ <= {tok} and not any(isinstance(x, ast.Call) for x in ast.walk(anc.test)):
+                        gt |= {id(x) for x in ast.walk(anc.test)}
+                anc = f.module.parents.get(anc)
+            work.append((u, lits[0], gt))
         for (u, L, guard_tests) in work:
             kinds_seen.append(L)
             unode = {n.id for n in cfg.owner(u)}
